@@ -649,6 +649,8 @@ class Interp:
             return [(pc, T.const(1))]
         if re.fullmatch(r'<\w+ as (num_traits::)?Zero>::is_zero', c):
             return [(pc, self.cmp('Eq', d[0], T.const(0)))]
+        if re.fullmatch(r'<\w+ as (?:num_traits::)?Float>::(is_nan|is_infinite)', c) and isinstance(T, RealTheory):
+            return [(pc, False)]      # the reals have neither; the obligation states the side condition (non-zero divisor)
         m = re.fullmatch(r'<\w+ as (?:num_traits::)?Float>::(max|min|abs)', c)
         if m and not isinstance(T, BVTheory):
             # over the reals / integers (no NaN): the mathematical max, min, |.|
